@@ -77,6 +77,7 @@ type Contract struct {
 	NoAlloc  bool      // the function allocates nothing (checked on the callee, used at call sites: allocation counter unchanged)
 	Safety   []string  // properties that own this function's safety side-conditions (nopanic/overflow/pre@); empty = all props
 	Functional string  // name of the ufunc this function's single result equals (deterministic function of its arguments)
+	NoClose  []string  // channel variables that neither this function nor any of its function literals may close
 	CallsOnce string   // name of a func-typed parameter that the (assumed) callee calls exactly once, synchronously
 	Repeats   string   // name of a func-typed parameter that the (assumed) callee calls any number of times
 	RepeatReq []Clause // what the callee guarantees about the arguments of each such call ($a0, $a1, ...)
@@ -412,6 +413,8 @@ func ParseContracts(P *Program) (*Contracts, error) {
 				cur.Safety = strings.Fields(rest)
 			case "functional":
 				cur.Functional = strings.TrimSpace(rest)
+			case "noclose":
+				cur.NoClose = append(cur.NoClose, strings.Fields(rest)...)
 			case "callsonce":
 				cur.CallsOnce = strings.TrimSpace(rest)
 			case "repeats":
